@@ -7,6 +7,7 @@ import (
 	"fmt"
 	"math/big"
 	"net/http"
+	"strings"
 
 	"github.com/thushan/olla/internal/util"
 )
@@ -149,8 +150,16 @@ func (t *Translator) convertToToolUse(toolCall map[string]interface{}) *ContentB
 	argsStr, _ := function["arguments"].(string)
 
 	// openai sends args as json string, we need it as an object
+	// numbers are kept as written (json.Number): decoding into float64 would silently change
+	// integers above 2^53 (ids, timestamps in nanoseconds)
 	var input map[string]interface{}
-	if err := json.Unmarshal([]byte(argsStr), &input); err != nil {
+	decoder := json.NewDecoder(strings.NewReader(argsStr))
+	decoder.UseNumber()
+	err := decoder.Decode(&input)
+	if err == nil {
+		input, _ = preserveLargeNumbers(input).(map[string]interface{})
+	}
+	if err != nil {
 		// use empty input if json is bad, don't fail the whole response
 		t.logger.Warn("Failed to parse tool arguments, using empty input",
 			"tool", name,
@@ -167,6 +176,40 @@ func (t *Translator) convertToToolUse(toolCall map[string]interface{}) *ContentB
 		Name:  name,
 		Input: input,
 	}
+}
+
+// preserveLargeNumbers turns the json.Number values of a decoded document back into float64
+// (what the rest of the code and encoding/json's default decoding use) wherever float64
+// represents the number exactly as written, and leaves the others as json.Number so that they
+// are re-encoded digit for digit.
+func preserveLargeNumbers(v interface{}) interface{} {
+	switch x := v.(type) {
+	case map[string]interface{}:
+		for k, e := range x {
+			x[k] = preserveLargeNumbers(e)
+		}
+		return x
+	case []interface{}:
+		for i, e := range x {
+			x[i] = preserveLargeNumbers(e)
+		}
+		return x
+	case json.Number:
+		if i, err := x.Int64(); err == nil {
+			if i >= -(1<<53) && i <= 1<<53 {
+				return float64(i)
+			}
+			return x // an integer float64 cannot hold exactly
+		}
+		if !strings.ContainsAny(x.String(), ".eE") {
+			return x // an integer literal beyond int64
+		}
+		if f, err := x.Float64(); err == nil {
+			return f
+		}
+		return x
+	}
+	return v
 }
 
 // map openai token counts to anthropic names
